@@ -29,7 +29,7 @@ def sim(name, scenario, **kw):
 
 
 def c12_jobs(tier):
-    jobs = [sim("c12-direct", "c12", require_counters=["topic_deleted_before_subscription", "stream_ended_not_found", "delete_inside_burst_over_mailbox", "delete_abandoned_by_its_client"])]
+    jobs = [sim("c12-direct", "c12", require_counters=["topic_deleted_before_subscription", "stream_ended_not_found", "delete_inside_burst_over_mailbox", "delete_abandoned_by_its_client", "same_name_created_around_the_delete"])]
     if tier == "thorough":
         jobs.append(sim("c12-h2", "c12", transport="h2"))
     return jobs
